@@ -118,6 +118,18 @@ def run(ctx):
             vlib.report_violation(ctx, dict(kind="session-stall", detail=out[0].get("viol"),
                                             how="real timers; the process pauses 260 ms at the end of newFileStore (hook H2) during USE / CREATE DATABASE"),
                                   signature="stalled-open:" + (out[0].get("viol") or [""])[0][:80])
+        # ---- restarts after the process died inside CREATE DATABASE (the statement is several writes on disk: directory, data
+        # file, header, log file, catalog pages, header): Session!CreateDb is atomic - it happened or it did not - so after the
+        # restart every other database is as it was and works, and statements on the unfinished one are answered
+        out = []
+        pool.run_all([dict(steps=[], half=True)], lambda q, r: out.append(r), chunk=1)
+        if not out or out[0].get("kind") == "infra":
+            raise vlib.Undecided("half-created database scenario: %s" % (out and out[0].get("notes")))
+        cov["crash_inside_create_database_scenarios"] = 1
+        if not out[0]["ok"]:
+            vlib.report_violation(ctx, dict(kind="session-half-created", detail=out[0].get("viol"),
+                                            how="images = the databases as they were + data/x with a prefix of the writes a real CREATE DATABASE x issued"),
+                                  signature="half-created:" + (out[0].get("viol") or [""])[0][-80:])
     finally:
         pool.close()
     # the promises of Session.tla without bounds (any number of databases, rows and steps): TLAPS proof, re-checked here
